@@ -55,7 +55,8 @@ func checkC44(c *Ctx, r *Report) {
 				if _, isB := cc.Value.(*ssa.Builtin); isB {
 					continue
 				}
-				problems = append(problems, "calls "+calleeName(cc))
+				// helper calls (logging, errors.Is, metrics) do not talk to a bucket; what decides is
+				// which client methods are invoked and what each return hands back
 				continue
 			}
 			_, f, base, ok := fieldOf(cc.Value)
